@@ -63,6 +63,7 @@ BOOKKEEPING = {'NotificationCenter.unregister', 'SystemAction.remove',
                'SystemAction._do_action', 'AbstractWrappingDispatcher.remove',
                'AbstractWrappingDispatcher.add',
                'AbstractWrappingDispatcher.update_func_for_func_proxy',
+               'AbstractWrappingDispatcher._entry_index',   # (proposed fix C18-shared-function-order)
                'AbstractResponderFunc.free', 'AbstractResponderFunc.disable'}
 
 
